@@ -129,6 +129,21 @@ def run(case):
             pass
         except Exception as e:  # noqa
             anomaly = type(e).__name__
+        # after the block: the same context object is entered once more (empty block), then a plain facade write must reach the
+        # store at once - a context variable or a depth counter left behind by the block would buffer or lose it
+        if anomaly is None:
+            try:
+                if case["ending"] in ("commit", "rollback"):
+                    async with uow:
+                        pass
+                await cache.set("post:probe", 1)
+                if "post:probe" not in mem.store:
+                    anomaly = "write after the block did not reach the store"
+                await cache.delete("post:probe")
+                if "post:probe" in mem.store:
+                    anomaly = "delete after the block did not reach the store"
+            except Exception as e:  # noqa
+                anomaly = "after the block: " + type(e).__name__
         tend = tick()
         final = snap()
         reserved = sorted(k for k in mem.store if k.startswith(":"))
